@@ -508,7 +508,16 @@ pub fn run_case(ctx: &mut CaseCtx) -> CaseResult {
                 if fam_idx > 20 {
                     continue;
                 }
-                let new_cfg = gen_family(rng, &base, fam_idx, wmode, l2, fmt, crlf);
+                let mut new_cfg = gen_family(rng, &base, fam_idx, wmode, l2, fmt, crlf);
+                // now and then the very same file specification, only with rotation switched on:
+                // the records after the reset belong to the rotation family (<name>_rCURRENT ...),
+                // the file without infix keeps what was logged before
+                if cfg.names.naming == NamingK::NoRotation && rng.chance(1, 3) {
+                    new_cfg = cfg.clone();
+                    new_cfg.names.naming = if rng.chance(1, 2) { NamingK::Numbers } else { NamingK::Timestamps };
+                    new_cfg.crit = Some(Crit::Size(*rng.pick(&[30u64, 120, 1000])));
+                    res.count("resets_that_only_switch_rotation_on", 1);
+                }
                 script.push(format!(
                     "reset_flw -> {} {} in {}",
                     new_cfg.names.basename,
